@@ -102,7 +102,8 @@ def _eval_scan(case):
             ex = ("R", tuple(("(?s)" if flagged is not None and flagged % len(pats) == i else "") + _glob_to_regex(p) for i, p in enumerate(pats)))
         else:
             ex = ("G", tuple(pats))
-        none = ("G", ("*__never_matches__",))
+        # the reference scan "without that pattern": no exclusion pattern at all (exclusions=(), no regex_exclusions)
+        none = ("G", ())
         filtered = sc.real_scan(proj, root, mp, **sc.kw_for(ex, True, None, ("R", ())))
         plain = sc.real_scan(proj, root, mp, **sc.kw_for(none, True, None, ("R", ())))
         line = sc.scan_line("scan", base, tree, root, mp, ex)
@@ -138,6 +139,16 @@ def judge_scans(ctx, stream, cases):
         F, P = sc.parse_snapshot(filtered), sc.parse_snapshot(plain)
         m = a.get("M", "?")
         stream.count("regex" if case["regex"] else "glob")
+        if P is None and F is not None:
+            # "exactly as in the scan without that pattern": that scan must exist whenever the filtered one does
+            ctx.violations.append({"kind": "property-violation",
+                                   "what": f"the scan without any exclusion pattern (exclusions=()) raises {plain} although the scan with the patterns succeeds",
+                                   "files": dict(case["tree"]), "module_path": case["mp"], "patterns": case["pats"], "regex_form": case["regex"],
+                                   "filtered": filtered, "unfiltered": plain,
+                                   "python": "get_evaluable_architecture(root, module_path, exclusions=())"})
+            if len(ctx.violations) >= 3:
+                return
+            continue
         if F is None or P is None:
             stream.count("impl:ERR")
             if filtered != m:
